@@ -205,7 +205,9 @@ class _MCQuad(torch.autograd.Function):
             # derivative of pparams
             dLdthetap = []
             if len(ptensor_params) > 0:
-                dLdef = torch.dot((fout - epf).reshape(-1), grad_epf.reshape(-1))
+                # fout takes the type of its mean (an indicator integrand is bool,
+                # a count is an integer: they have no subtraction with a float)
+                dLdef = torch.dot((fout.to(epf.dtype) - epf).reshape(-1), grad_epf.reshape(-1))
                 dLdthetap = _grad_or_zeros(pout, ptensor_params,
                                            grad_outputs=dLdef.reshape(pout.shape),
                                            create_graph=local_grad_enabled)
